@@ -356,10 +356,16 @@ func crashAt(c *fw.Case, h *roles.History, histFile string, hidx int, ref0 []ptr
 	if len(mmA) > 0 {
 		if inflight >= 0 {
 			wantB := dbx.Expect(h.RefDBOf(func(k int) bool { return okSet[k] || k == inflight }))
-			if mmB := dbx.Compare(wantB, got, false); len(mmB) == 0 {
+			mmB := dbx.Compare(wantB, got, false)
+			if len(mmB) == 0 {
 				c.Count("inflight_visible_atomically", 1)
 				visible = func(k int) bool { return okSet[k] || k == inflight }
 				mmA = nil
+			} else if mmB[0].Clause != mmA[0].Clause {
+				// the in-flight write-out is (mostly) visible: report the deviation from that alternative,
+				// it names the view that actually lags instead of every row of the in-flight write-out
+				c.Violatef("after_crash|inflight_visible|"+mmB[0].Clause+"|"+ev.Kind(), "%s: after the crash the in-flight write-out %d is visible but the readers disagree with completed %v + in-flight: %s", desc, inflight, keys(okSet), mmB[0].Detail)
+				return
 			}
 		}
 	}
